@@ -97,47 +97,164 @@ theorem frame_hex_roundtrip (bs : List Nat) (hb : ∀ b ∈ bs, b < 256) (acc : 
     have : b / 16 % 16 * 16 + b % 16 = b := by omega
     simp [this]
 
-/-- **A timed record keeps the input frame as hex, so decoding that hex again gives the same
-    fields**: the `frame` member parses back to the input bytes (hence, decoding being a function,
-    to the same message), and the record — time stamp, frame, the message's members flattened in,
-    metadata — is again a well-formed object without duplicate keys. -/
-theorem timed_record (bs : List Nat) (kvs : List (Key × Json)) (ts : Json) (mdata : List Json)
-    (h : tryFrom bs = .ok (.json (.obj kvs))) (hb : ∀ b ∈ bs, b < 256)
-    (hts : ts.wf = true) (hmeta : Json.wfList mdata = true) :
-    (Timed.timedJson ts bs (some kvs) mdata).wf = true ∧
-    parseHexAux (Timed.frameHex bs) [] = some bs ∧
-    (∀ bs', parseHexAux (Timed.frameHex bs) [] = some bs' → tryFrom bs' = .ok (.json (.obj kvs))) := by
-  obtain ⟨kvs', e, hn, hw, _, hav⟩ := tryFrom_good bs _ h
-  cases e
-  have hrt : parseHexAux (Timed.frameHex bs) [] = some bs := by simpa using frame_hex_roundtrip bs hb []
-  refine ⟨?_, hrt, fun bs' hb' => by rw [hrt] at hb'; cases hb'; exact h⟩
-  have wfapp : ∀ a b : List (Key × Json), Json.wfObj (a ++ b) = (Json.wfObj a && Json.wfObj b) := by
-    intro a b; induction a with
-    | nil => simp [Json.wfObj]
-    | cons x r ih => obtain ⟨k, v⟩ := x; simp [Json.wfObj, ih, Bool.and_assoc]
-  simp only [Timed.timedJson, Option.getD_some, Json.wf, Bool.and_eq_true, decide_eq_true_eq]
+/-- the `decode_time` member by configuration: there exactly under `serialize_config(true)` with a measured time -/
+theorem decode_time_member (cfg : Timed.Config) (dt : Option Json) :
+    Timed.decodeTimeMember cfg dt =
+      if cfg = .set true then (dt.map fun t => (key! "decode_time", t)).toList else [] := by
+  cases cfg with
+  | unset => cases dt <;> simp [Timed.decodeTimeMember, Timed.skipDecodeTime, Timed.Config.decodeTime]
+  | set b => cases b <;> cases dt <;> simp [Timed.decodeTimeMember, Timed.skipDecodeTime, Timed.Config.decodeTime]
+
+/-- under the default configuration (never set) and under `serialize_config(false)` the record is the one without
+    `decode_time`, whatever the field holds; under every configuration so is a record whose field is `None` -/
+theorem timedJsonCfg_default (cfg : Timed.Config) (ts : Json) (bs : List Nat) (msg : Option (List (Key × Json)))
+    (mdata : List Json) (dt : Option Json) (h : cfg ≠ .set true ∨ dt = none) :
+    Timed.timedJsonCfg cfg ts bs msg mdata dt = Timed.timedJson ts bs msg mdata := by
+  unfold Timed.timedJsonCfg Timed.timedJson
+  rw [decode_time_member]
+  rcases h with h | h
+  · simp [h]
+  · subst h; split <;> simp
+
+theorem wfObj_append (a b : List (Key × Json)) : Json.wfObj (a ++ b) = (Json.wfObj a && Json.wfObj b) := by
+  induction a with
+  | nil => simp [Json.wfObj]
+  | cons x r ih => obtain ⟨k, v⟩ := x; simp [Json.wfObj, ih, Bool.and_assoc]
+
+/-- time stamp, frame, the message's members, then a tail of members named `metadata` / `decode_time`: well formed -/
+theorem record_wf (ts : Json) (bs : List Nat) (kvs T : List (Key × Json))
+    (hts : ts.wf = true) (hw : Json.wfObj kvs = true) (hn : (keyIds kvs).Nodup)
+    (hav : ∀ k ∈ keyIds kvs, k ∉ timedKeys)
+    (hT : Json.wfObj T = true) (hTn : (keyIds T).Nodup)
+    (hTk : ∀ k ∈ keyIds T, k = (key! "metadata").id ∨ k = (key! "decode_time").id) :
+    (Json.obj ([(key! "timestamp", ts), (key! "frame", .chars (Timed.frameHex bs))] ++ kvs ++ T)).wf = true := by
+  simp only [Json.wf, Bool.and_eq_true, decide_eq_true_eq]
   refine ⟨?_, ?_⟩
-  · simp only [List.cons_append, List.nil_append, Json.wfObj, wfapp, hts, hw, hmeta, Json.wf, Bool.and_self]
-  · simp only [keyIds, List.cons_append, List.nil_append, List.map_cons, List.map_append, List.map_nil]
+  · simp only [List.cons_append, List.nil_append, Json.wfObj, wfObj_append, hts, hw, hT, Json.wf, Bool.and_self]
+  · simp only [keyIds, List.cons_append, List.nil_append, List.map_cons, List.map_append]
     have hk : ∀ k ∈ List.map (fun x => x.1.id) kvs, k ∉ timedKeys := hav
+    have hTk' : ∀ k ∈ List.map (fun x => x.1.id) T, k = (key! "metadata").id ∨ k = (key! "decode_time").id := hTk
     refine List.nodup_cons.mpr ⟨?_, List.nodup_cons.mpr ⟨?_, ?_⟩⟩
     · intro hm
-      simp only [List.mem_cons, List.mem_append, List.mem_singleton] at hm
+      simp only [List.mem_cons, List.mem_append] at hm
       rcases hm with hm | hm | hm
       · exact absurd hm (by decide)
       · exact hk _ hm (by decide)
-      · exact absurd hm (by decide)
+      · rcases hTk' _ hm with e | e <;> exact absurd e (by decide)
     · intro hm
-      simp only [List.mem_append, List.mem_singleton] at hm
+      simp only [List.mem_append] at hm
       rcases hm with hm | hm
       · exact hk _ hm (by decide)
-      · exact absurd hm (by decide)
+      · rcases hTk' _ hm with e | e <;> exact absurd e (by decide)
     · rw [List.nodup_append]
-      refine ⟨hn, by simp, ?_⟩
+      refine ⟨hn, hTn, ?_⟩
       intro a ha b hb' hab
-      simp only [List.mem_singleton] at hb'
-      subst hab; subst hb'
-      exact hk _ ha (by decide)
+      subst hab
+      rcases hTk' _ hb' with e | e <;> exact hk _ ha (by rw [e]; decide)
+
+/-- the tail `metadata`, (`decode_time`) of the record under any configuration -/
+theorem tail_good (cfg : Timed.Config) (mdata : List Json) (dt : Option Json)
+    (hmeta : Json.wfList mdata = true) (hdt : ∀ t, dt = some t → t.wf = true) :
+    Json.wfObj ([(key! "metadata", Json.arr mdata)] ++ Timed.decodeTimeMember cfg dt) = true ∧
+    (keyIds ([(key! "metadata", Json.arr mdata)] ++ Timed.decodeTimeMember cfg dt)).Nodup ∧
+    ∀ k ∈ keyIds ([(key! "metadata", Json.arr mdata)] ++ Timed.decodeTimeMember cfg dt),
+      k = (key! "metadata").id ∨ k = (key! "decode_time").id := by
+  rw [decode_time_member]
+  by_cases hc : cfg = .set true
+  · cases dt with
+    | none => simp [hc, Json.wfObj, Json.wf, hmeta, keyIds]
+    | some t =>
+      have := hdt t rfl
+      simp only [hc, if_true, Option.map_some, Option.toList_some, List.cons_append, List.nil_append, Json.wfObj,
+        Json.wf, hmeta, this, Bool.and_self, keyIds, List.map_cons, List.map_nil, true_and]
+      refine ⟨by decide, ?_⟩
+      intro k hk
+      simp only [List.mem_cons, List.not_mem_nil, or_false] at hk
+      exact hk
+  · simp [hc, Json.wfObj, Json.wf, hmeta, keyIds]
+
+/-- **A timed record keeps the input frame as hex, so decoding that hex again gives the same fields — under EVERY
+    serialisation configuration**: for each state `cfg` of the process-wide switch (never set, `serialize_config(false)`,
+    `serialize_config(true)`) and each value `dt` of the `decode_time` field, the record — time stamp, frame, the
+    message's members flattened in, metadata, and `decode_time` when shown — is a well-formed object without duplicate
+    keys; its `frame` member parses back to the input bytes (hence, decoding being a function, to the same message);
+    every member of the message is found in the record under its key with its value; and `decode_time` is a member
+    exactly under `serialize_config(true)` when the field is `Some`, with the field's value. -/
+theorem timed_record (cfg : Timed.Config) (bs : List Nat) (kvs : List (Key × Json)) (ts : Json) (mdata : List Json)
+    (dt : Option Json)
+    (h : tryFrom bs = .ok (.json (.obj kvs))) (hb : ∀ b ∈ bs, b < 256)
+    (hts : ts.wf = true) (hmeta : Json.wfList mdata = true) (hdt : ∀ t, dt = some t → t.wf = true) :
+    (Timed.timedJsonCfg cfg ts bs (some kvs) mdata dt).wf = true ∧
+    parseHexAux (Timed.frameHex bs) [] = some bs ∧
+    (∀ bs', parseHexAux (Timed.frameHex bs) [] = some bs' → tryFrom bs' = .ok (.json (.obj kvs))) ∧
+    (∀ members, Timed.timedJsonCfg cfg ts bs (some kvs) mdata dt = .obj members →
+      (∀ k v, (k, v) ∈ kvs → Rs1090.Proofs.Filters.objGet members k = some v) ∧
+      Rs1090.Proofs.Filters.objGet members (key! "decode_time") = (if cfg = .set true then dt else none)) := by
+  obtain ⟨kvs', e, hn, hw, _, hav⟩ := tryFrom_good bs _ h
+  cases e
+  have hrt : parseHexAux (Timed.frameHex bs) [] = some bs := by simpa using frame_hex_roundtrip bs hb []
+  obtain ⟨hT, hTn, hTk⟩ := tail_good cfg mdata dt hmeta hdt
+  have hwf : (Timed.timedJsonCfg cfg ts bs (some kvs) mdata dt).wf = true := by
+    unfold Timed.timedJsonCfg
+    rw [Option.getD_some, List.append_assoc _ [_] _]
+    exact record_wf ts bs kvs _ hts hw hn hav hT hTn hTk
+  refine ⟨hwf, hrt, fun bs' hb' => by rw [hrt] at hb'; cases hb'; exact h, ?_⟩
+  intro members hm
+  have hnd : (members.map (·.1.id)).Nodup := by
+    rw [hm] at hwf
+    simp only [Json.wf, Bool.and_eq_true, decide_eq_true_eq] at hwf
+    exact hwf.2
+  unfold Timed.timedJsonCfg at hm
+  cases hm
+  refine ⟨fun k v hkv => Rs1090.Proofs.Filters.objGet_of_mem hnd (by simp [hkv]), ?_⟩
+  rw [decode_time_member] at hnd ⊢
+  by_cases hc : cfg = .set true
+  · cases dt with
+    | none =>
+      simp only [hc, if_true, Option.map_none, Option.toList_none, List.append_nil]
+      -- no member is called decode_time
+      unfold Rs1090.Proofs.Filters.objGet
+      rw [List.find?_eq_none.mpr, Option.map_none]
+      intro kv hkv
+      simp only [List.mem_append, List.mem_cons, List.not_mem_nil, or_false, Option.getD_some] at hkv
+      rcases hkv with ((rfl | rfl) | hkv) | rfl
+      · exact (by decide : ¬ ((key! "timestamp") == (key! "decode_time")) = true)
+      · exact (by decide : ¬ ((key! "frame") == (key! "decode_time")) = true)
+      · have := hav kv.1.id (List.mem_map_of_mem (f := fun x => x.1.id) hkv)
+        intro he
+        apply this
+        have : kv.1.id = (key! "decode_time").id := by simpa [BEq.beq] using he
+        rw [this]; decide
+      · exact (by decide : ¬ ((key! "metadata") == (key! "decode_time")) = true)
+    | some t =>
+      simp only [hc, if_true, Option.map_some, Option.toList_some] at hnd ⊢
+      exact Rs1090.Proofs.Filters.objGet_of_mem hnd (by simp)
+  · simp only [hc, if_false, List.append_nil]
+    unfold Rs1090.Proofs.Filters.objGet
+    rw [List.find?_eq_none.mpr, Option.map_none]
+    intro kv hkv
+    simp only [List.mem_append, List.mem_cons, List.not_mem_nil, or_false, Option.getD_some] at hkv
+    rcases hkv with ((rfl | rfl) | hkv) | rfl
+    · exact (by decide : ¬ ((key! "timestamp") == (key! "decode_time")) = true)
+    · exact (by decide : ¬ ((key! "frame") == (key! "decode_time")) = true)
+    · have := hav kv.1.id (List.mem_map_of_mem (f := fun x => x.1.id) hkv)
+      intro he
+      apply this
+      have : kv.1.id = (key! "decode_time").id := by simpa [BEq.beq] using he
+      rw [this]; decide
+    · exact (by decide : ¬ ((key! "metadata") == (key! "decode_time")) = true)
+
+-- the hypotheses are satisfiable under each configuration (the frame of the repository's tests used below decodes)
+example : ∀ cfg : Timed.Config, ∃ j, Timed.recordCfg cfg (jrat 3 2)
+    [0x8d,0x40,0x6b,0x90,0x20,0x15,0xa6,0x78,0xd4,0xd2,0x20,0xaa,0x4b,0xda] [] (some (jrat 1 8000)) = .ok (.json j) := by
+  intro cfg
+  have h : (tryFrom [0x8d,0x40,0x6b,0x90,0x20,0x15,0xa6,0x78,0xd4,0xd2,0x20,0xaa,0x4b,0xda]).isOk = true := by
+    decide +kernel
+  unfold Timed.recordCfg
+  cases hd : tryFrom [0x8d,0x40,0x6b,0x90,0x20,0x15,0xa6,0x78,0xd4,0xd2,0x20,0xaa,0x4b,0xda] with
+  | ok d => obtain ⟨kvs, e⟩ := serialises _ d hd; subst e; exact ⟨_, rfl⟩
+  | err e => rw [hd] at h; cases h
+  | panic x => rw [hd] at h; cases h
 
 /-! ### the pipeline's entry point
 
@@ -152,14 +269,15 @@ theorem serialises_from_bytes (bs : List Nat) (d : Decoded) (h : fromBytes bs = 
   subst e
   exact ⟨kvs, rfl, json_wellformed _ _ ht⟩
 
-/-- a timed record made from an undecodable frame (`message: None` flattens to nothing) is well formed too -/
-theorem timed_record_undecoded (bs : List Nat) (ts : Json) (mdata : List Json)
-    (hts : ts.wf = true) (hmeta : Json.wfList mdata = true) :
-    (Timed.timedJson ts bs none mdata).wf = true := by
-  simp only [Timed.timedJson, Option.getD_none, List.append_nil, List.cons_append, List.nil_append, Json.wf,
-    Json.wfObj, hts, hmeta, keyIds, List.map_cons, List.map_nil, Bool.and_self, Bool.and_eq_true,
-    decide_eq_true_eq, Bool.true_and]
-  decide
+/-- a timed record made from an undecodable frame (`message: None` flattens to nothing) is well formed too, under
+    every configuration -/
+theorem timed_record_undecoded (cfg : Timed.Config) (bs : List Nat) (ts : Json) (mdata : List Json) (dt : Option Json)
+    (hts : ts.wf = true) (hmeta : Json.wfList mdata = true) (hdt : ∀ t, dt = some t → t.wf = true) :
+    (Timed.timedJsonCfg cfg ts bs none mdata dt).wf = true := by
+  obtain ⟨hT, hTn, hTk⟩ := tail_good cfg mdata dt hmeta hdt
+  unfold Timed.timedJsonCfg
+  rw [Option.getD_none, List.append_assoc _ [_] _]
+  exact record_wf ts bs [] _ hts rfl (by simp [keyIds]) (by simp [keyIds]) hT hTn hTk
 
 /-! sanity anchors: frames of the repository's own suite serialise -/
 example : ∃ kvs, tryFrom [0x8d,0x40,0x6b,0x90,0x20,0x15,0xa6,0x78,0xd4,0xd2,0x20,0xaa,0x4b,0xda] = .ok (.json (.obj kvs)) := by
